@@ -343,6 +343,56 @@ def gen_api_case(rng):
     return case
 
 
+def gen_zface_sweep_case(rng, api="nl"):
+    """STRUCTURED: a triclinic cell whose reduced c vector has a y component, with at least 7 y voxels and 5 z voxels
+    (b_y/cutoff >= 4, c_z/cutoff >= 3: neither the every-y-voxel fallback nor the window cap applies), filled with pairs that
+    are neighbours ONLY through a z face of the cell: one atom just inside the face, its partner just beyond it (wrapped back
+    by the c vector, so its voxel sits in the y window of the image cell, shifted by c_y), the y separation swept from
+    -0.94 to +0.94 of the cutoff and the pair placed at a random y (every alignment with the y-voxel boundaries), both
+    index orders, both faces."""
+    while True:
+        cell = gen_cell(rng, "tric", pattern=rng.choice(["cy", "cy", "bx_cy", "cx_cy", "general"]))
+        Br = reduce_box_f(approx_box(cell))
+        if abs(Br[2, 1]) < 0.05 * Br[1, 1]:
+            continue
+        w = min(widths(Br))
+        cn = min(Br[1, 1] / rng.uniform(4.05, 6.5), Br[2, 2] / rng.uniform(3.05, 5.5), 0.49 * w)
+        if Br[1, 1] / cn >= 4.02 and Br[2, 2] / cn >= 3.02 and cn > 0.3:
+            break
+    c = int(cn * G)
+    cn = c / G
+    K = rng.choice([16, 24, 32])
+    P = []
+    for k in range(K):
+        dy = (-0.94 + 1.88 * (k + rng.random()) / K) * cn
+        upper = rng.random() < 0.5
+        zi = rng.uniform(0.0, 0.1) * cn
+        dz = -(zi + rng.uniform(0.005, 0.1) * cn)
+        rem = (0.96 * cn) ** 2 - dy * dy - dz * dz
+        dx = rng.choice([-1, 1]) * rng.uniform(0, math.sqrt(max(rem, 0.0)))
+        p = np.array([rng.random() * Br[0, 0], rng.random() * Br[1, 1], zi])
+        d = np.array([dx, dy, dz])
+        if upper:                       # mirror: the pair straddles the upper z face
+            p[2] = Br[2, 2] - zi - 1e-4
+            d[2] = -dz
+        q = p + d
+        for r in (2, 1, 0):
+            q = q - math.floor(q[r] / Br[r, r]) * Br[r]
+            p = p - math.floor(p[r] / Br[r, r]) * Br[r]
+        pair = [list(p), list(q)]
+        if rng.random() < 0.5:
+            pair.reverse()
+        P += pair
+    xyz = [[int(math.floor(v * G)) for v in p] for p in P]
+    case = {"api": api, "xyz": xyz, "cell": cell, "c": c, "periodic": True, "kind": "tric/" + cell["pattern"], "dist": "zface-sweep",
+            "cmode": "quarter"}
+    if api == "nb":
+        n = len(xyz)
+        q = rng.sample(range(n), rng.randint(1, min(n, 12)))
+        case["query"], case["hay"] = q, None
+    return case
+
+
 def gen_seq_case(rng, api):
     """history across calls: one multi-frame trajectory whose cell changes from frame to frame ("traj"), or consecutive
     calls in one process ("calls"); consecutive cells share a_x and differ in ONE other respect (b, c, an angle,
@@ -432,6 +482,9 @@ def build_cases(ctx, scale=1.0):
     for api in ("nb", "nb", "nl"):
         for _ in range(int((5 if quick else 40) * scale) or 1):
             cases.append(gen_seq_case(rng, api))
+    # pairs that are neighbours only through a z face of a skewed cell, y separation swept over the y-voxel boundaries -- in every run
+    for k in range(int((8 if quick else 80) * scale) or 1):
+        cases.append(gen_zface_sweep_case(rng, "nl" if k % 4 else "nb"))
     # whole calls of the wrappers (all frames, default arguments, invalid indices, frame selection) -- in every run
     for _ in range(int((70 if quick else 700) * scale) or 1):
         cases.append(gen_api_case(rng))
